@@ -22,7 +22,9 @@ Representation choices, all invisible to the results:
 * `PathAndQueryMatcher.regex_tree_rule` likewise is the list of its `(pattern, id) ↦ route` entries.
 * `BTreeSet` keys of the two condition-group layers are canonical lists (`canonH`; for date-time
   groups the three possible conditions in the order of the derived `Ord`).
-* `cache` only compiles regexes; it is the identity on these specification-level states.
+* `cache` only compiles regexes: the specification-level trees have no compiled state, so every
+  matcher's `cache` returns its state unchanged and the budget it received; `Router::cache`'s
+  loop (`RouterG.cache`) is modelled over any outermost matcher.
 -/
 import RioModel.Model.RouterBase
 
@@ -107,6 +109,8 @@ def pathOps : MOps where
   matchReq := Path.matchReq E
   trace := Path.trace E
   len := fun s => s.count
+  -- `regex_tree_rule.cache(limit, Some(level))`: the specification-level tree has no compiled state
+  cache := fun limit _ s => (s, limit)
 
 end
 
@@ -160,6 +164,22 @@ emptied by a batch removal survives with a stale positive count. -/
 def lBatchRemove (ids : List String) (s : LState I K) : LState I K :=
   { s with any := I.batchRemove ids s.any, map := batchAll I ids s.map }
 
+/-- `for matcher in map.values_mut() { new_limit = matcher.cache(new_limit, level) }` (the budget is
+threaded through the buckets in iteration order). -/
+def cacheAll (level : Nat) : List (K × I.M) → Nat → List (K × I.M) × Nat
+  | [], limit => ([], limit)
+  | (k, b) :: rest, limit =>
+    let rb := I.cache limit level b
+    let rr := cacheAll level rest rb.2
+    ((k, rb.1) :: rr.1, rr.2)
+
+/-- `cache` of Scheme / Ip / Method / Header / DateTime matcher: the always-present bucket first,
+then the keyed buckets. -/
+def lCache (limit level : Nat) (s : LState I K) : LState I K × Nat :=
+  let ra := I.cache limit level s.any
+  let rm := cacheAll I level s.map ra.2
+  ({ s with any := ra.1, map := rm.1 }, rm.2)
+
 /-- The bucket-union every `match_request` computes, in its simplest form (used as the common
 reference the per-layer transcriptions are proved equivalent to). -/
 def lMatchMap (accepts : K → Req → Bool) (m : List (K × I.M)) (q : Req) : List Route :=
@@ -179,6 +199,7 @@ def outerOps {K : Type} [DecidableEq K] (I : MOps) (keysOf : Route → Option (L
   matchReq := matchReq
   trace := trace
   len := fun s => s.count
+  cache := lCache I
 
 /-! ## DateTimeMatcher and HeaderMatcher: condition groups with a per-request memo -/
 
@@ -577,6 +598,36 @@ def getTrace (S : RouterG O) (q : Req) : List Route × Option Route :=
 
 /-- `build`: a router filled by successive `insert`s. -/
 def build (R : List Route) : RouterG O := R.foldl (fun S r => insert O r S) (empty O)
+
+/-- `limit as i64`. -/
+def asI64 (n : Nat) : Int := if n % 2 ^ 64 < 2 ^ 63 then (n % 2 ^ 64 : Nat) else (n % 2 ^ 64 : Nat) - 2 ^ 64
+
+/-- The `while prev_cache_limit > 0` loop of `Router::cache`: state = (`prev_cache_limit`, `level`,
+`retry`, matcher).  `fuel` bounds the iterations; the Boolean result says that the fuel ran out
+(never, with the fuel `Router.cache` passes: `cache_terminates`). -/
+def cacheLoop : Nat → Int → Nat → Nat → O.M → O.M × Int × Bool
+  | 0, prev, _, _, m => (m, prev, true)
+  | fuel + 1, prev, level, retry, m =>
+    if prev > 0 then
+      let r := O.cache prev.toNat level m
+      let next := asI64 r.2
+      if next == prev then
+        if retry + 1 > 5 then (r.1, next, false)      -- `break`
+        else cacheLoop fuel next (level + 1) (retry + 1) r.1
+      else cacheLoop fuel next (level + 1) retry r.1
+    else (m, prev, false)
+
+/-- The initial `prev_cache_limit` of `Router::cache`: `limit as i64`, or
+`(routes.len() / 10).clamp(100, 10_000)`. -/
+def cachePrev (limit : Option Nat) (S : RouterG O) : Int :=
+  match limit with
+  | some l => asI64 l
+  | none => ((max 100 (min 10000 (S.routes.length / 10)) : Nat) : Int)
+
+/-- `Router::cache(limit)`.  The second phase (`route.compile()` of the routes' own capture regexes
+while budget is left) has no effect on this model's state (routes carry no compiled state; C10). -/
+def cache (limit : Option Nat) (S : RouterG O) : RouterG O :=
+  ⟨(cacheLoop O ((cachePrev O limit S).toNat + 7) (cachePrev O limit S) 0 0 S.matcher).1, S.routes⟩
 
 end RouterG
 
